@@ -59,7 +59,9 @@ func prop(t *rapid.T) {
 		t.Fatalf("bootstrap: %v", err)
 	}
 	// the reset instance starts from the same genesis and is Reset into each later epoch directly
-	r, err := cons.New(cons.NewEvents(), cfgR, idx.Epoch(sc.FirstEpoch), first.Validators(), scen.SealFn(sc))
+	// (it never seals by itself: it processes every epoch to the end - so it has decided frames and warm
+	// caches when it is Reset - and is then moved to the next epoch with Reset only)
+	r, err := cons.New(cons.NewEvents(), cfgR, idx.Epoch(sc.FirstEpoch), first.Validators(), nil)
 	if err != nil {
 		t.Fatalf("bootstrap: %v", err)
 	}
@@ -123,13 +125,15 @@ func prop(t *rapid.T) {
 				fail("epoch %d: block %d has frame %d (blocks must be numbered from 1)", ref.Epoch, bi, b.Frame)
 			}
 		}
-		// the reset instance must have produced the same blocks for this epoch
-		if k > 0 {
-			if err := r.L.Reset(idx.Epoch(ref.Epoch), ref.Validators()); err != nil {
-				fail("Reset: %v", err)
-			}
-			if got := r.StateString(); got != fmt.Sprintf("epoch=%d validators=%s lastDecided=0", ref.Epoch, ref.Validators().String()) {
-				fail("state after Reset(%d): %s", ref.Epoch, got)
+		// the reset instance must produce the same blocks for this epoch (it goes on beyond the sealing frame)
+		{
+			if k > 0 {
+				if err := r.L.Reset(idx.Epoch(ref.Epoch), ref.Validators()); err != nil {
+					fail("Reset: %v", err)
+				}
+				if got := r.StateString(); got != fmt.Sprintf("epoch=%d validators=%s lastDecided=0", ref.Epoch, ref.Validators().String()) {
+					fail("state after Reset(%d): %s", ref.Epoch, got)
+				}
 			}
 			rb := len(r.Blocks)
 			orderR := dagen.GenOrder(t, ref, fmt.Sprintf("reset.ep%d", k))
@@ -137,9 +141,16 @@ func prop(t *rapid.T) {
 			if res.Err != nil || len(r.Crits) > 0 {
 				fail("reset instance: Process(e%d) = %v crit %v", res.ErrAt, res.Err, r.Crits)
 			}
-			a, b := scen.BlocksKey(epochBlocks), scen.BlocksKey(r.Blocks[rb:])
-			if !reflect.DeepEqual(append([]string{}, a...), append([]string{}, b...)) {
-				fail("epoch %d: the instance that sealed epoch %d and the instance reset to epoch %d emit different blocks\n sealed %v\n reset  %v", ref.Epoch, ref.Epoch-1, ref.Epoch, a, b)
+			rBlocks := r.Blocks[rb:]
+			if len(rBlocks) < len(epochBlocks) {
+				fail("epoch %d: the reset instance decided %d frames, the sealing instance %d", ref.Epoch, len(rBlocks), len(epochBlocks))
+			}
+			for bi := range epochBlocks {
+				x, y := epochBlocks[bi], rBlocks[bi]
+				if x.Epoch != y.Epoch || x.Frame != y.Frame || x.Atropos != y.Atropos || fmt.Sprint(x.Cheaters) != fmt.Sprint(y.Cheaters) {
+					fail("epoch %d block %d: the instance that sealed epoch %d emits %v, the instance reset to epoch %d emits %v",
+						ref.Epoch, bi, ref.Epoch-1, scen.BlocksKey(epochBlocks[bi:bi+1]), ref.Epoch, scen.BlocksKey(rBlocks[bi:bi+1]))
+				}
 			}
 		}
 		if plan.SealAt == 0 {
